@@ -379,6 +379,8 @@ REGEX_OWNERS = {
 
 def problem_concerns(line, pid):
     m = re.search(r"PROBLEM: regex (\w+)", line)
+    if not m and "LABEL_RE_LIST" in line:
+        return pid in REGEX_OWNERS["re_label"]
     if not m:
         return True
     name = m.group(1)
